@@ -252,10 +252,10 @@ PROPS['C08']['trusted_base'] = TRUSTED_COMMON + IDEALCL
 
 PROPS['C04'] = dict(
     lean_targets=['AnonModel.Props.C04'],
-    required_theorems=['C04_legacy', 'C04_check_revealedValuesOk', 'C04_check_restrictions', 'C04_check_subCtxs', 'C04_check_cl'],
+    required_theorems=['C04_legacy', 'C04_w3c', 'C04_check_revealedValuesOk', 'C04_check_restrictions', 'C04_check_subCtxs', 'C04_check_cl', 'C04_check_w3c_attrs', 'C04_check_w3c_subjects'],
     families=[dict(name='c04')], default_dir='verdict', fam_dir={'c04': 'verdict'},
     spec_is_model=[],
-    fam_theorem={'c04': 'C04_legacy : meetsDemands -> createPresentation = some p -> verifyLegacy = ok true (prover model exact vs real prover; meetsDemands evaluated on every generated honest flow)'},
+    fam_theorem={'c04': 'C04_legacy / C04_w3c : meetsDemands -> createPresentation = some p -> verify = ok true (prover model exact vs real prover; meetsDemands evaluated on every generated honest flow)'},
     rule="random worlds over the cast (6 definitions incl. case/space-variant attribute names, legacy ids, revocable ones; 12 credentials; registry histories): 1-3 credentials per presentation, each attribute in a random role (revealed / unrevealed single with respelled names, group revealed or not, one of eight satisfied predicates, unused), satisfied restrictions from 16 templates (incl. legacy list form, $in, $neq, $not, value/marker leaves), global and local intervals with holder states for a list at which the credential is valid, self-attested referents (legacy), unused credentials in random positions; legacy and W3C; every third selection is broken in one of seven ways the prover must refuse. Compared: (a) real prover output vs prover model output, exactly (requested_proof maps, identifiers, every sub-proof's revealed values / predicates / non-revocation part presence, subject of derived W3C credentials); (b) real verifier verdict vs verifier model verdict; (c) the hypotheses of the theorem (meetsDemands / meetsDemandsW3C) evaluated by the model on every honest flow must be true; oracle: honest flow verifies",
     trusted_base=TRUSTED_COMMON + IDEALCL,
     assumptions=["F19 (W3C value restriction spelled as the request spells the attribute) is a known finding; the honest generator uses the spelling each format understands and a dedicated class reproduces the finding"],
